@@ -237,12 +237,19 @@ def run(ctx):
     # (a) np.array_split at the multiples of the chunk size; (b) consecutive slices x[s:s+c] for s = 0, c, 2c, ... < len(x)
     idiom_a = rv_ == "array_split(x, range(chunksize, len(x), chunksize))"
     idiom_b = False
-    if rv_ is not None and not idiom_a:
+    why_b = ""
+    if len(r) == 1 and not idiom_a and isinstance(r[0].ret, ast.ListComp) and len(r[0].ret.generators) == 1 and isinstance(r[0].ret.generators[0].target, ast.Name) and not r[0].ret.generators[0].ifs:
+        # the loop variable is renamed; an empty input must still give one (empty) chunk - np.concatenate([]) raises -
+        # so the range runs to max(1, len(x))
+        v_ = r[0].ret.generators[0].target.id
+        rv2_ = canon(r[0].ret, rename={v_: "s__"})
         for X_ in ("x", "asanyarray(x)", "asarray(x)"):
-            for N_ in ("len(x)", "max(1, len(x))", "max(len(x), 1)"):
-                if rv_ == canon(ast.parse(f"[{X_}[s:s + chunksize] for s in range(0, {N_}, chunksize)]", mode="eval").body, rename={"s": "start"}) or rv_ == canon(ast.parse(f"[{X_}[start:start + chunksize] for start in range(0, {N_}, chunksize)]", mode="eval").body):
+            for N_ in ("max(1, len(x))", "max(len(x), 1)", "len(x) or 1"):
+                if rv2_ == canon(ast.parse(f"[{X_}[s__:s__ + chunksize] for s__ in range(0, {N_}, chunksize)]", mode="eval").body):
                     idiom_b = True
-    ctx.ob("R-SIB", "C10.3", sp, "chunking is np.array_split at multiples of the chunk size, or consecutive slices of that width (contiguous, ordered, complete)", idiom_a or idiom_b, f"`{rv_}`")
+            if rv2_ == canon(ast.parse(f"[{X_}[s__:s__ + chunksize] for s__ in range(0, len(x), chunksize)]", mode="eval").body):
+                why_b = ": an empty batch gives no chunk at all (np.array_split gives one empty chunk), and np.concatenate([]) in the caller raises"
+    ctx.ob("R-SIB", "C10.3", sp, "chunking is np.array_split at multiples of the chunk size, or consecutive slices of that width (contiguous, ordered, complete)", idiom_a or idiom_b, f"`{rv_}`" + why_b)
     ctx.floor("C10.3", 10)
 
     wrapper_table(ctx, "C10.4")
